@@ -33,6 +33,15 @@ void instantiate() {
     tl = ::std::move(moved);
     TL with_ctor {[](::std::string*) {}};
   }
+  {
+    // the leaky flavour (the one the counters use): its slots, its bound and its live-thread enumeration come from one allocator
+    using TL = ::babylon::EnumerableThreadLocal<::std::string, true>;
+    TL tl;
+    (void)tl.local();
+    tl.for_each([](::std::string*, ::std::string*) {});
+    tl.for_each_alive([](::std::string*, ::std::string*) {});
+    static_cast<const TL&>(tl).for_each_alive([](const ::std::string*, const ::std::string*) {});
+  }
   tl_ops<::babylon::CompactEnumerableThreadLocal<size_t>, size_t>();
   tl_ops<::babylon::CompactEnumerableThreadLocal<int, 1, true>, int>();
   {
